@@ -1358,6 +1358,8 @@ func (ls *LState) Insert(value LValue, index int) {
 	reg := ls.indexToReg(index)
 	top := ls.reg.Top()
 	if reg >= top {
+		// fill the gap between the old top and reg with LNil
+		ls.reg.SetTop(reg)
 		ls.reg.Set(reg, value)
 		return
 	}
